@@ -317,11 +317,9 @@ def run_static(ctx: Ctx):
 def replay_static(payload):
     from pathlib import Path
     from .. import core
-    from cylc.flow.task_queues.independent import IndepQueueManager
     scratch = Path(core.scratch_root())
     universe = payload['universe']
     queues = tuple((q[0], q[1], tuple(q[2])) for q in payload['queues'])
-    fams = UNIVERSES[universe][0]
     if payload['mode'] == 'config':
         res = _config_one(universe, queues, payload['dlimit'],
                           payload.get('dpos'), scratch)
